@@ -1769,7 +1769,7 @@ func (e *c28Env) evalConfig(v map[string]any) {
 	// and probe traces decided directly (the requests above may all have been refused): the vector's
 	// own field-value class, or - where the vector has none - the plain trace and every class
 	fvs := append([]string{""}, c28FieldValues...)
-	if fv != "" && fv != "-" {
+	if fv != "" && fv != "-" && !isCond {
 		fvs = []string{fv}
 	}
 	e.decideProbe(fvs, rules)
